@@ -134,8 +134,8 @@ pub fn scaled_cases(thorough: bool) -> (Vec<Case>, Value) {
     cross(families::a3(Entropy::Pattern, if thorough { 1 } else { 3 }), &cfgs_for(&[5]), "A3", &mut cases);
     // B program tree: full tree for layers none/encrypt (cheap), a shallower tree for the
     // compressed combinations (a brotli encoder instance costs ~2 ms)
-    let (mf, mo, ma) = if thorough { (3, 8, 3) } else { (3, 7, 2) };
-    let (cmo, cma) = if thorough { (7, 2) } else { (5, 2) };
+    let (mf, mo, ma) = if thorough { (3, 8, 2) } else { (3, 7, 2) };
+    let (cmo, cma) = if thorough { (6, 2) } else { (5, 2) };
     let sizes = if thorough { families::sigma() } else { families::sigma_q() };
     let plain = [Cfg::new(L4::None), Cfg::new(L4::Encrypt)];
     let comp = [Cfg::lvl(L4::Compress, 5), Cfg::lvl(L4::Both, 5)];
@@ -146,8 +146,12 @@ pub fn scaled_cases(thorough: bool) -> (Vec<Case>, Value) {
     }
     // small-size deep tree: more appends with three sizes
     let small = [1usize, CHUNK + 1, BLOCK + 1];
-    cross(families::tree(3, if thorough { 9 } else { 8 }, if thorough { 4 } else { 3 }, &small, Entropy::Pattern), &plain, "B3", &mut cases);
+    cross(families::tree(3, 8, if thorough { 4 } else { 3 }, &small, Entropy::Pattern), &plain, "B3", &mut cases);
     cross(families::tree(3, if thorough { 7 } else { 6 }, 3, &small, Entropy::Pattern), &comp, "B3c", &mut cases);
+    if thorough {
+        // four files
+        cross(families::tree(4, 8, 2, &[1, CHUNK + 1], Entropy::Pattern), &plain, "B4", &mut cases);
+    }
     // N names in every position
     let names: [String; 4] = ["".to_string(), "a".to_string(), "é☠/😀".to_string(), "n".repeat(65536)];
     let base = vec![Op::Start(0), Op::Append(0, CHUNK + 1), Op::Start(1), Op::Append(1, 3), Op::Start(2), Op::Append(0, 2), Op::End(0), Op::End(2), Op::End(1)];
@@ -201,7 +205,7 @@ pub fn scaled_cases(thorough: bool) -> (Vec<Case>, Value) {
         "A2": "one file, two pieces (s1 in 0..=chunk+8, s2 in 0..=chunk+8 and block-1..block+2)",
         "A3": "two interleaved files S A0(x) S A1(y) A0(z), x,z in 0..=chunk+8, y in {0,1,chunk+1}",
         "B": format!("layers none/encrypt: all valid programs with <= {mf} files, <= {mo} ops, <= {ma} appends, sizes {:?}, closed in creation and reverse order; layers compress/both: same with <= {cmo} ops, <= {cma} appends", sizes),
-        "B3": "all valid programs with up to 3 (quick) / 4 (thorough) appends of sizes {1, chunk+1, block+1}: <= 8/9 ops for layers none/encrypt, <= 6/7 ops and 3 appends for compress/both",
+        "B3": "all valid programs with up to 3 (quick) / 4 (thorough) appends of sizes {1, chunk+1, block+1}: <= 8 ops for layers none/encrypt, <= 6/7 ops and 3 appends for compress/both; thorough adds all programs with <= 4 files, <= 8 ops, <= 2 appends of sizes {1, chunk+1}",
         "N": "names {empty, 'a', unicode with '/', 65536 bytes} in every position of a 3-file interleaved program",
         "R": "1..3 recipients, each reading alone and after two foreign candidate keys; 16 recipients read by the first and the last",
     });
